@@ -296,6 +296,17 @@ let co_dc oracle thr e g al =
           ret (match r with
                | Some _ -> true
                | None -> false)))))
+        bind n_vars (fun nv ->
+          let sel = zlit (add (S O) nv) in
+          bind (locals_m c al) (fun la ->
+            bind
+              (add_clause (app (map (arg_to_lit e) la) ((negate sel) :: [])))
+              (fun _ ->
+              bind (solve oracle (sel :: [])) (fun r ->
+                bind (add_clause ((negate sel) :: [])) (fun _ ->
+                  ret (match r with
+                       | Some _ -> true
+                       | None -> false)))))))))
 
 (** val co_dc_cert :
     (nat -> cnf -> lit list -> answer) -> nat -> enc -> gview -> nat list ->
@@ -318,6 +329,24 @@ let co_dc_cert oracle thr e g al =
                   (flat_map (fun oc ->
                     lift oc (grounded (view_of_af oc.c_af))) others)))))
           | None -> ret (false, None)))))
+        bind n_vars (fun nv ->
+          let sel = zlit (add (S O) nv) in
+          bind (locals_m c al) (fun la ->
+            bind
+              (add_clause (app (map (arg_to_lit e) la) ((negate sel) :: [])))
+              (fun _ ->
+              bind (solve oracle (sel :: [])) (fun r ->
+                match r with
+                | Some m ->
+                  let ext0 =
+                    lift c (assignment_to_extension (length c.c_af.args) e m)
+                  in
+                  bind (remaining_m g (fst sc)) (fun others ->
+                    ret (true, (Some
+                      (app ext0
+                        (flat_map (fun oc ->
+                          lift oc (grounded (view_of_af oc.c_af))) others)))))
+                | None -> ret (false, None))))))))
 
 (** val st_a2e : comp -> assignment -> nat list **)
 
@@ -387,6 +416,18 @@ let rec st_accept_loop oracle thr al polarity status_on_unsat l merged found =
         st_accept_loop oracle thr al polarity status_on_unsat r
           (app merged (st_a2e c m0)) ((||) acc found)
       | None -> ret (status_on_unsat, None))
+  bind (ccs_m g) (fun ccs ->
+    let rec go l merged =
+      match l with
+      | [] -> ret (Some merged)
+      | c :: r ->
+        bind new_solver (fun _ ->
+          bind (encode_m thr StDefault false c.c_af) (fun _ ->
+            bind (solve oracle []) (fun m ->
+              match m with
+              | Some m0 -> go r (app merged (st_a2e c m0))
+              | None -> ret None)))
+    in go ccs [])
 
 (** val st_accept :
     (nat -> cnf -> lit list -> answer) -> nat -> gview -> nat list -> bool ->
@@ -396,6 +437,48 @@ let st_accept oracle thr g al polarity status_on_unsat =
   bind (ccs_m g) (fun ccs ->
     st_accept_loop oracle thr al polarity status_on_unsat ccs []
       (negb polarity))
+    let rec go l merged found =
+      match l with
+      | [] ->
+        if found
+        then ret ((negb status_on_unsat), (Some merged))
+        else ret (status_on_unsat, None)
+      | c :: r ->
+        bind new_solver (fun _ ->
+          bind (encode_m thr StDefault false c.c_af) (fun _ ->
+            let in_cc = filter_map (cc_local c) al in
+            (match in_cc with
+             | [] ->
+               bind (solve oracle []) (fun m ->
+                 match m with
+                 | Some m0 -> go r (app merged (st_a2e c m0)) found
+                 | None -> ret (status_on_unsat, None))
+             | _ :: _ ->
+               if polarity
+               then bind n_vars (fun nv ->
+                      let sel = zlit (add (S O) nv) in
+                      bind
+                        (add_clause
+                          (app (map (arg_to_lit StDefault) in_cc)
+                            ((negate sel) :: []))) (fun _ ->
+                        bind (solve oracle (sel :: [])) (fun m1 ->
+                          bind (add_clause ((negate sel) :: [])) (fun _ ->
+                            match m1 with
+                            | Some m -> go r (app merged (st_a2e c m)) true
+                            | None ->
+                              bind (solve oracle []) (fun m2 ->
+                                match m2 with
+                                | Some m ->
+                                  go r (app merged (st_a2e c m)) found
+                                | None -> ret (status_on_unsat, None))))))
+               else bind
+                      (solve oracle
+                        (map (fun a -> negate (arg_to_lit StDefault a)) in_cc))
+                      (fun m ->
+                      match m with
+                      | Some m0 -> go r (app merged (st_a2e c m0)) found
+                      | None -> ret (status_on_unsat, None)))))
+    in go ccs [] (negb polarity))
 
 (** val st_dc :
     (nat -> cnf -> lit list -> answer) -> nat -> gview -> nat list ->
